@@ -707,6 +707,12 @@ func (cf *caseFn) lastAssigned(path []int, name string) string {
 						out = cf.canon(s.Rhs[i])
 					}
 				}
+			} else if len(s.Rhs) == 1 {
+				for i, l := range s.Lhs {
+					if id, ok := l.(*ast.Ident); ok && id.Name == name {
+						out = fmt.Sprintf("%s#%d", cf.canon(s.Rhs[0]), i)
+					}
+				}
 			}
 		case *ast.DeclStmt:
 			if gd, ok := s.Decl.(*ast.GenDecl); ok {
